@@ -4,6 +4,7 @@ import PPProofs.Lemmas.Ranges
 import PPProofs.Lemmas.OneOf
 import PPProofs.Lemmas.OneOfCaseless
 import PPProofs.Lemmas.CompressedRe
+import PPProofs.Lemmas.RoundTrip
 /-!
 # C17 — alternative matching strategies for the same element are equivalent
 
@@ -92,6 +93,26 @@ theorem word_slow_char (a : WordArgs) (w : Word) (h : mkWord a = some w) (hkw : 
     · injection hm with hm; omega
     · cases hm
   · rw [hk]; exact hkw
+
+/-- **complete description of `Word.parseImpl` for every flag combination** (incl. as_keyword): the spec,
+    then the strict-max test, then the as_keyword test — which looks at *body characters* on both sides
+    (the regex path uses `\b` instead: finding word_askeyword_paths). -/
+theorem word_slow_full (a : WordArgs) (w : Word) (h : mkWord a = some w) (s : List Char) (loc : Nat) :
+    slowPath w s loc =
+      match specOf w s loc with
+      | some e =>
+          if w.maxSpecified && charIn w.bodySet s e then none
+          else if w.asKeyword &&
+              ((decide (loc > 0) && charIn w.bodySet s (loc - 1)) || charIn w.bodySet s e) then none
+          else some e
+      | none => none := by
+  obtain ⟨-, -, -, hml, -, -, -, -⟩ := mkWord_facts a w h
+  apply slowPath_full w s loc
+  intro m hm
+  rw [hml] at hm; unfold maxLenOf at hm
+  split at hm
+  · injection hm with hm; omega
+  · cases hm
 
 /-- **word_slow_spec**: `Word.parseImpl` = "longest run init·body*, capped at max, fail below min",
     under exactly the hypotheses the proof forces: as_keyword off, and either `max` not given or the
@@ -303,5 +324,43 @@ example : ∃ r, makeCompressedRe ["abc".toList, "abd".toList, "ab".toList, "x."
     render r = "a(?:b[cd]?)|x\\.".toList ∧ fullMatch false r "abd".toList = true ∧
     fullMatch false r "a".toList = false := by
   refine ⟨_, rfl, ?_, ?_, ?_⟩ <;> decide
+
+/-! ## the pattern TEXT: `parse` inverts `render` on everything the builders produce
+
+so the statements above about ASTs are statements about the texts `reString`, `one_of(...).pattern`,
+`make_compressed_re(...)` as read by the ReLite parser. -/
+
+/-- the `reString` text of any constructed Word parses back to the AST the theorems talk about -/
+theorem word_re_text (a : WordArgs) (w : Word) (r : Re) (h : mkWord a = some w) (hr : w.re = some r) :
+    parse (render r) = some r := by
+  obtain ⟨-, -, -, -, -, -, -, -, hre⟩ := mkWord_facts a w h
+  exact parse_render_reOf a w h r (hre ▸ hr)
+
+/-- **word_re_text_spec**: reading the generated text back and matching it = the spec -/
+theorem word_re_text_spec (a : WordArgs) (w : Word) (r : Re) (h : mkWord a = some w) (hr : w.re = some r)
+    (hkw : a.asKeyword = false) :
+    ∃ r', parse (render r) = some r' ∧ ∀ s loc, matchAt false r' s loc = specOf w s loc :=
+  ⟨r, word_re_text a w r h hr, fun s loc => word_re_spec a w r h hr hkw s loc⟩
+
+/-- the pattern text one_of builds parses back to its AST (non-empty list of non-empty symbols) -/
+theorem oneof_re_text (syms : List Sym) (hne : syms ≠ []) (hs : ∀ y ∈ syms, y ≠ []) :
+    parse (render (oneOfRe syms)) = some (oneOfRe syms) :=
+  parse_render_oneOfRe syms hne hs
+
+/-- **compressed_re_language_text**: the text `make_compressed_re(words, max_level)` returns, read back by
+    the parser, fully matches exactly the given words -/
+theorem compressed_re_language_text (words : List W) (maxLevel : Nat) (r : Re)
+    (h : makeCompressedRe words maxLevel = some r) :
+    ∃ r', parse (render r) = some r' ∧ ∀ w, fullMatch false r' w = true ↔ w ∈ words :=
+  ⟨r, parse_render_makeCompressedRe words maxLevel r h,
+   fun w => CompressedRe.compressed_re_language words maxLevel r h w⟩
+
+-- non-vacuity of the text level: a concrete generated text and its round trip (through the theorem)
+example : ∃ r, makeCompressedRe ["ab".toList, "a".toList] 2 = some r ∧ render r = "ab?".toList ∧
+    parse "ab?".toList = some r := by
+  refine ⟨_, rfl, by decide, ?_⟩
+  have := parse_render_makeCompressedRe ["ab".toList, "a".toList] 2 _ rfl
+  have hr : render (Re.cat (.chr 'a') (.opt (.chr 'b'))) = "ab?".toList := by decide
+  rw [← hr]; exact this
 
 end PP.C17
